@@ -1,5 +1,4 @@
 import PsVerif.Generated.Ranking
-#print axioms PsVerif.Gen.pipe_ssporFit
 #print axioms PsVerif.Gen.selection_predict_0
 #print axioms PsVerif.Gen.selection_predict_1
 #print axioms PsVerif.Gen.selection_predict_2
